@@ -1,5 +1,5 @@
 (* The created-annotation recogniser of Model/Pack.v against RFC 3339 section 5.6. *)
-From Oras Require Import Base.Prelude Base.Regex Generated.GC19 Model.Pack Proofs.Pack.
+From Oras Require Import Base.Prelude Base.Regex Base.StrCheck Generated.GC19 Model.Pack Proofs.Pack.
 
 Definition dig (c : N) : Prop := is_digit c = true.
 Definition two (a c : N) : N := dval a * 10 + dval c.
@@ -120,9 +120,9 @@ Qed.
 
 (* ---------- the recogniser accepts exactly RFC3339_go ---------- *)
 
-Theorem rfc3339_ok_sound s : rfc3339_ok s = true -> RFC3339_go s.
+Theorem strict_sound s : rfc3339_gen true s = true -> RFC3339_go s.
 Proof.
-  unfold rfc3339_ok, rfc3339_gen.
+  unfold rfc3339_gen.
   destruct (num4 s) as [[year r1]|] eqn:E1; [|discriminate].
   apply num4_inv in E1 as (y1 & y2 & y3 & y4 & -> & Y1 & Y2 & Y3 & Y4 & ->).
   destruct (lit 45 r1) as [r2|] eqn:E2; [|discriminate]. apply lit_inv in E2 as ->.
@@ -177,14 +177,14 @@ Proof.
     rewrite F1. rewrite skip_digits_app; auto.
 Qed.
 
-Theorem rfc3339_ok_complete s : RFC3339_go s -> rfc3339_ok s = true.
+Theorem strict_complete s : RFC3339_go s -> rfc3339_gen true s = true.
 Proof.
   intros (y1 & y2 & y3 & y4 & o1 & o2 & d1 & d2 & tsep & h1 & h2 & m1 & m2 & s1 & s2 & frac & zone &
           -> & D & T & Mo & Da & Ho & Mi & Se & Fr & Zo).
   destruct T as [<-|[]].
   repeat match goal with Hf : Forall dig (_ :: _) |- _ => inversion Hf; subst; clear Hf end.
   unfold dig in *.
-  unfold rfc3339_ok, rfc3339_gen, num4, num2, lit. cbn [app].
+  unfold rfc3339_gen, num4, num2, lit. cbn [app].
   repeat (cbn [andb N.eqb Pos.eqb];
           match goal with Hd : is_digit ?x = true |- context [is_digit ?x] => rewrite Hd end).
   cbn [andb N.eqb Pos.eqb].
@@ -192,6 +192,249 @@ Proof.
   rewrite (tail_ok frac zone Fr Zo), andb_true_r.
   repeat (apply andb_true_iff; split); try (apply N.leb_le; lia); apply N.ltb_lt; lia.
 Qed.
+
+(* ---------- validateRFC3339 = time.Parse + the translated strict checks ---------- *)
+
+(* The code is: time.Parse(time.RFC3339, v), then reject a ':' at offset 12 (one-digit hour), a ','
+   at offset 19 (comma before the fraction) and, when the last byte is not 'Z', an offset hour
+   >= 24 or an offset minute >= 60.  The lemma pins the translated source (gosrc2v kind
+   "strictchecks") to that reading: a changed strict check changes the generated term and breaks
+   it; the lemmas below prove that this reading is exactly [rfc3339_gen true]. *)
+Definition expected_strict_checks : list (scond * list scond) :=
+  [ (CByte (FromStart 12) OpEq 58, [CTrue]);
+    (CByte (FromStart 19) OpEq 44, [CTrue]);
+    (CByte (FromEnd 1) OpNe 90, [CNum2 (FromEnd 5) OpGe 24; CNum2 (FromEnd 2) OpGe 60]) ].
+
+Lemma strict_checks_as_modelled :
+  validateRFC3339_checks = expected_strict_checks /\ validateRFC3339_checks_layout = b "time.RFC3339".
+Proof. split; reflexivity. Qed.
+
+Lemma dig_range c : dig c -> 48 <= c <= 57.
+Proof.
+  unfold dig, is_digit. intro D. apply andb_true_iff in D as [A B]. apply N.leb_le in A, B. lia.
+Qed.
+
+Lemma nth_from_end (pre z : str) k :
+  (k <= length z)%nat -> nth (length (pre ++ z) - k) (pre ++ z) 0 = nth (length z - k) z 0.
+Proof.
+  intro L. rewrite app_length, app_nth2 by lia. f_equal. lia.
+Qed.
+
+(* lenient counterpart of tail_ok: time.Parse also takes what the strict grammar takes *)
+Lemma tail_ok_l frac zone : frac_ok frac -> zone_ok [90] zone -> tz_ok false (skip_frac false (frac ++ zone)) = true.
+Proof.
+  intros Fr Zo.
+  assert (TZ : tz_ok false zone = true /\ skip_digits zone = zone /\
+               forall x y r, zone = x :: y :: r -> (x =? 46) = false /\ (x =? 44) = false).
+  { destruct Zo as [(z & -> & [<-|[]]) | (sg & a1 & a2 & c1 & c2 & -> & Sg & Dg & Hh & Mm)].
+    - split; [reflexivity|]. split; [reflexivity|]. intros x y r E; discriminate E.
+    - inversion Dg as [|? ? A1 Dg1]; subst. inversion Dg1 as [|? ? A2 Dg2]; subst.
+      inversion Dg2 as [|? ? C1 Dg3]; subst. inversion Dg3 as [|? ? C2 _]; subst.
+      unfold dig in *. unfold two in *.
+      assert (Hh' : (dval a1 * 10 + dval a2 <=? 24) = true) by (apply N.leb_le; lia).
+      assert (Mm' : (dval c1 * 10 + dval c2 <=? 60) = true) by (apply N.leb_le; lia).
+      destruct Sg as [-> | ->]; (split; [|split]).
+      + cbn -[N.leb N.mul N.add dval]. now rewrite A1, A2, C1, C2, Hh', Mm'.
+      + reflexivity.
+      + intros x y r [= <- _]. split; reflexivity.
+      + cbn -[N.leb N.mul N.add dval]. now rewrite A1, A2, C1, C2, Hh', Mm'.
+      + reflexivity.
+      + intros x y r [= <- _]. split; reflexivity. }
+  destruct TZ as (T & Sk & Hd).
+  destruct Fr as [-> | (f & fs & -> & F)].
+  - simpl. unfold skip_frac. destruct zone as [|x [|y r]]; auto.
+    destruct (Hd x y r eq_refl) as [H46 H44]. cbn [negb andb]. now rewrite H46, H44.
+  - inversion F as [|? ? F1 F2]; subst. unfold dig in F1.
+    cbn [app skip_frac negb andb]. cbn [N.eqb Pos.eqb orb andb].
+    rewrite F1. rewrite skip_digits_app; auto.
+Qed.
+
+Lemma lenient_of_go s : RFC3339_go s -> rfc3339_gen false s = true.
+Proof.
+  intros (y1 & y2 & y3 & y4 & o1 & o2 & d1 & d2 & tsep & h1 & h2 & m1 & m2 & s1 & s2 & frac & zone &
+          -> & D & T & Mo & Da & Ho & Mi & Se & Fr & Zo).
+  destruct T as [<-|[]].
+  repeat match goal with Hf : Forall dig (_ :: _) |- _ => inversion Hf; subst; clear Hf end.
+  unfold dig in *.
+  unfold rfc3339_gen, num4, num2, num12, lit. cbn [app].
+  repeat (cbn [andb N.eqb Pos.eqb];
+          match goal with Hd : is_digit ?x = true |- context [is_digit ?x] => rewrite Hd end).
+  cbn [andb N.eqb Pos.eqb].
+  fold (two o1 o2) (two d1 d2) (two h1 h2) (two m1 m2) (two s1 s2) (four y1 y2 y3 y4).
+  rewrite (tail_ok_l frac zone Fr Zo), andb_true_r.
+  repeat (apply andb_true_iff; split); try (apply N.leb_le; lia); apply N.ltb_lt; lia.
+Qed.
+
+(* a timestamp of the strict grammar passes the three explicit checks *)
+Lemma no_reject_of_go s : RFC3339_go s -> switch_rejects s expected_strict_checks = false.
+Proof.
+  intros (y1 & y2 & y3 & y4 & o1 & o2 & d1 & d2 & tsep & h1 & h2 & m1 & m2 & s1 & s2 & frac & zone &
+          -> & D & T & Mo & Da & Ho & Mi & Se & Fr & Zo).
+  repeat match goal with Hf : Forall dig (_ :: _) |- _ => inversion Hf; subst; clear Hf end.
+  repeat match goal with Hd : dig _ |- _ => apply dig_range in Hd end.
+  set (P := [y1; y2; y3; y4; 45; o1; o2; 45; d1; d2; tsep; h1; h2; 58; m1; m2; 58; s1; s2]).
+  unfold expected_strict_checks, switch_rejects.
+  (* offset 12 is the second hour digit *)
+  assert (E1 : scond_eval (P ++ frac ++ zone) (CByte (FromStart 12) OpEq 58) = false).
+  { simpl. apply N.eqb_neq. lia. }
+  rewrite E1.
+  (* offset 19 is '.', 'Z', '+' or '-' *)
+  assert (E2 : scond_eval (P ++ frac ++ zone) (CByte (FromStart 19) OpEq 44) = false).
+  { cbn [scond_eval byte_at cmp_eval]. change (nth 19 (P ++ frac ++ zone) 0) with (nth 0 (frac ++ zone) 0).
+    destruct Fr as [-> | (f & fs & -> & _)]; [|reflexivity].
+    destruct Zo as [(z & -> & [<-|[]]) | (sg & a1 & a2 & c1 & c2 & -> & [-> | ->] & _)]; reflexivity. }
+  rewrite E2.
+  rewrite app_assoc.
+  destruct Zo as [(z & -> & [<-|[]]) | (sg & a1 & a2 & c1 & c2 & -> & Sg & Dg & Hh & Mm)].
+  - assert (E3 : scond_eval ((P ++ frac) ++ [90]) (CByte (FromEnd 1) OpNe 90) = false).
+    { cbn [scond_eval byte_at cmp_eval]. rewrite nth_from_end by (simpl; lia). reflexivity. }
+    now rewrite E3.
+  - repeat match goal with Hf : Forall dig (_ :: _) |- _ => inversion Hf; subst; clear Hf end.
+    repeat match goal with Hd : dig _ |- _ => apply dig_range in Hd end.
+    unfold two, dval in *.
+    destruct (scond_eval ((P ++ frac) ++ [sg; a1; a2; 58; c1; c2]) (CByte (FromEnd 1) OpNe 90)); auto.
+    cbn [existsb scond_eval cmp_eval]. unfold num2_at, next_idx, byte_at. cbn [Nat.sub].
+    rewrite !nth_from_end by (simpl; lia). cbn [length Nat.sub nth].
+    rewrite orb_false_r. apply orb_false_iff. split; apply N.leb_gt; lia.
+Qed.
+
+(* ---------- inversion of the lenient scan ---------- *)
+
+Lemma num12_inv s v r :
+  num12 s = Some (v, r) ->
+  (exists a c, s = a :: c :: r /\ dig a /\ dig c /\ v = two a c) \/
+  (exists a, s = a :: r /\ dig a /\ v = dval a /\ match r with c :: _ => is_digit c = false | [] => True end).
+Proof.
+  unfold num12. destruct s as [|a s]; [discriminate|].
+  destruct (is_digit a) eqn:A; [|discriminate].
+  destruct s as [|c s].
+  - intros [= <- <-]. right. exists a. auto.
+  - destruct (is_digit c) eqn:C; intros [= <- <-].
+    + left. exists a, c. auto.
+    + right. exists a. auto.
+Qed.
+
+Definition zone_l (zone : str) : Prop :=
+  zone = [90] \/
+  exists sg a1 a2 c1 c2, zone = [sg; a1; a2; 58; c1; c2] /\ (sg = 43 \/ sg = 45) /\
+    Forall dig [a1; a2; c1; c2].
+
+Lemma tz_inv_l z : tz_ok false z = true -> zone_l z.
+Proof.
+  unfold tz_ok. destruct z as [|sg r]; [discriminate|].
+  destruct (sg =? 90) eqn:E.
+  - apply N.eqb_eq in E. subst. destruct r; [|discriminate]. intros _. now left.
+  - destruct r as [|h1 [|h2 [|col [|m1 [|m2 r]]]]]; try discriminate.
+    intro T. repeat (apply andb_true_iff in T as [T ?]).
+    destruct r; [|discriminate]. right.
+    match goal with Hc : (col =? 58) = true |- _ => apply N.eqb_eq in Hc; subst col end.
+    exists sg, h1, h2, m1, m2. split; auto.
+    match goal with Hs : (_ || _) = true |- _ => apply orb_true_iff in Hs as [Hs|Hs]; apply N.eqb_eq in Hs end;
+      (split; [auto|]); repeat constructor; assumption.
+Qed.
+
+(* after the seconds: an optional fraction introduced by '.' or ',' and a zone *)
+Lemma tail_inv_l r :
+  tz_ok false (skip_frac false r) = true ->
+  exists frac zone, r = frac ++ zone /\ zone_l zone /\
+    (frac = [] \/ exists sep f fs, frac = sep :: f :: fs /\ (sep = 46 \/ sep = 44) /\ Forall dig (f :: fs)).
+Proof.
+  unfold skip_frac. destruct r as [|p [|d r]].
+  - intro T. exists [], []. split; auto. split; [now apply tz_inv_l | left; auto].
+  - intro T. exists [], [p]. split; auto. split; [now apply tz_inv_l | left; auto].
+  - cbn [negb andb].
+    destruct (((p =? 46) || (p =? 44)) && is_digit d) eqn:G.
+    + apply andb_true_iff in G as [Sep D]. intro T.
+      destruct (skip_digits_split r) as (ds & E & F).
+      exists (p :: d :: ds), (skip_digits r). split; [simpl; now rewrite <- E|].
+      split; [now apply tz_inv_l|]. right. exists p, d, ds. split; auto. split; [|constructor; auto].
+      apply orb_true_iff in Sep as [S|S]; apply N.eqb_eq in S; auto.
+    + intro T. exists [], (p :: d :: r). split; auto. split; [now apply tz_inv_l | left; auto].
+Qed.
+
+(* what time.Parse takes and the explicit checks let through is in the strict grammar *)
+Lemma lenient_unrejected_go s :
+  rfc3339_gen false s = true -> switch_rejects s expected_strict_checks = false -> RFC3339_go s.
+Proof.
+  unfold rfc3339_gen.
+  destruct (num4 s) as [[year r1]|] eqn:E1; [|discriminate].
+  apply num4_inv in E1 as (y1 & y2 & y3 & y4 & -> & Y1 & Y2 & Y3 & Y4 & ->).
+  destruct (lit 45 r1) as [r2|] eqn:E2; [|discriminate]. apply lit_inv in E2 as ->.
+  destruct (num2 r2) as [[month r3]|] eqn:E3; [|discriminate].
+  apply num2_inv in E3 as (o1 & o2 & -> & O1 & O2 & ->).
+  destruct (lit 45 r3) as [r4|] eqn:E4; [|discriminate]. apply lit_inv in E4 as ->.
+  destruct (num2 r4) as [[day r5]|] eqn:E5; [|discriminate].
+  apply num2_inv in E5 as (d1 & d2 & -> & D1 & D2 & ->).
+  destruct (lit 84 r5) as [r6|] eqn:E6; [|discriminate]. apply lit_inv in E6 as ->.
+  destruct (num12 r6) as [[hour r7]|] eqn:E7; [|discriminate].
+  apply num12_inv in E7 as [(h1 & h2 & -> & H1 & H2 & ->) | (h & -> & H1 & -> & _)].
+  2:{ (* one-digit hour: the ':' sits at offset 12 and the first check rejects *)
+      destruct (lit 58 r7) as [r8|] eqn:E8; [|discriminate]. apply lit_inv in E8 as ->.
+      intros _ R. exfalso. unfold expected_strict_checks, switch_rejects in R. simpl in R. discriminate. }
+  destruct (lit 58 r7) as [r8|] eqn:E8; [|discriminate]. apply lit_inv in E8 as ->.
+  destruct (num2 r8) as [[minute r9]|] eqn:E9; [|discriminate].
+  apply num2_inv in E9 as (m1 & m2 & -> & M1 & M2 & ->).
+  destruct (lit 58 r9) as [r10|] eqn:E10; [|discriminate]. apply lit_inv in E10 as ->.
+  destruct (num2 r10) as [[sec r11]|] eqn:E11; [|discriminate].
+  apply num2_inv in E11 as (s1 & s2 & -> & S1 & S2 & ->).
+  intros T R. repeat (apply andb_true_iff in T as [T ?]).
+  match goal with Ht : tz_ok false _ = true |- _ => apply tail_inv_l in Ht as (frac & zone & -> & Zo & Fr) end.
+  repeat match goal with
+         | Hx : (_ <=? _) = true |- _ => apply N.leb_le in Hx
+         | Hx : (_ <? _) = true |- _ => apply N.ltb_lt in Hx
+         end.
+  set (P := [y1; y2; y3; y4; 45; o1; o2; 45; d1; d2; 84; h1; h2; 58; m1; m2; 58; s1; s2]).
+  change (switch_rejects (P ++ frac ++ zone) expected_strict_checks = false) in R.
+  unfold expected_strict_checks, switch_rejects in R.
+  assert (E1 : scond_eval (P ++ frac ++ zone) (CByte (FromStart 12) OpEq 58) = false).
+  { simpl. apply N.eqb_neq. apply dig_range in H2. lia. }
+  rewrite E1 in R.
+  (* the fraction separator is not a comma *)
+  assert (Fr' : frac_ok frac).
+  { destruct Fr as [-> | (sep & f & fs & -> & [-> | ->] & F)]; [left; auto | right; eauto |].
+    exfalso. cbn [scond_eval byte_at cmp_eval] in R.
+    change (nth 19 (P ++ (44 :: f :: fs) ++ zone) 0) with 44 in R. simpl in R. discriminate. }
+  assert (E2 : scond_eval (P ++ frac ++ zone) (CByte (FromStart 19) OpEq 44) = false).
+  { cbn [scond_eval byte_at cmp_eval]. change (nth 19 (P ++ frac ++ zone) 0) with (nth 0 (frac ++ zone) 0).
+    destruct Fr' as [-> | (f & fs & -> & _)]; [|reflexivity].
+    destruct Zo as [-> | (sg & a1 & a2 & c1 & c2 & -> & [-> | ->] & _)]; reflexivity. }
+  rewrite E2 in R.
+  assert (Zo' : zone_ok [90] zone).
+  { destruct Zo as [-> | (sg & a1 & a2 & c1 & c2 & -> & Sg & Dg)]; [left; exists 90; simpl; auto|].
+    right. exists sg, a1, a2, c1, c2. split; auto. split; auto. split; auto.
+    rewrite app_assoc in R.
+    inversion Dg as [|? ? A1 Dg1]; subst. inversion Dg1 as [|? ? A2 Dg2]; subst.
+    inversion Dg2 as [|? ? C1 Dg3]; subst. inversion Dg3 as [|? ? C2 _]; subst.
+    apply dig_range in A1, A2, C1, C2.
+    assert (G : scond_eval ((P ++ frac) ++ [sg; a1; a2; 58; c1; c2]) (CByte (FromEnd 1) OpNe 90) = true).
+    { cbn [scond_eval byte_at cmp_eval]. rewrite nth_from_end by (simpl; lia). cbn [length Nat.sub nth].
+      apply negb_true_iff. apply N.eqb_neq. lia. }
+    rewrite G in R.
+    cbn [existsb scond_eval cmp_eval] in R. unfold num2_at, next_idx, byte_at in R. cbn [Nat.sub] in R.
+    rewrite !nth_from_end in R by (simpl; lia). cbn [length Nat.sub nth] in R.
+    rewrite orb_false_r in R. apply orb_false_iff in R as [R1 R2]. apply N.leb_gt in R1, R2.
+    unfold two, dval. lia. }
+  exists y1, y2, y3, y4, o1, o2, d1, d2, 84, h1, h2, m1, m2, s1, s2, frac, zone.
+  split; [reflexivity|]. split; [repeat constructor; assumption|]. split; [simpl; auto|].
+  repeat split; try assumption; try lia.
+Qed.
+
+(* the model of validateRFC3339 (time.Parse, then the translated checks) is the strict recogniser *)
+Theorem rfc3339_ok_is_strict s : rfc3339_ok s = rfc3339_gen true s.
+Proof.
+  unfold rfc3339_ok. destruct strict_checks_as_modelled as [-> _].
+  destruct (rfc3339_gen true s) eqn:S.
+  - apply strict_sound in S. now rewrite (lenient_of_go s S), (no_reject_of_go s S).
+  - destruct (rfc3339_gen false s) eqn:L; auto.
+    destruct (switch_rejects s expected_strict_checks) eqn:R; auto.
+    apply (lenient_unrejected_go s L) in R. apply strict_complete in R. congruence.
+Qed.
+
+Theorem rfc3339_ok_sound s : rfc3339_ok s = true -> RFC3339_go s.
+Proof. rewrite rfc3339_ok_is_strict. apply strict_sound. Qed.
+
+Theorem rfc3339_ok_complete s : RFC3339_go s -> rfc3339_ok s = true.
+Proof. rewrite rfc3339_ok_is_strict. apply strict_complete. Qed.
 
 Theorem rfc3339_ok_spec s : rfc3339_ok s = true <-> RFC3339_go s.
 Proof. split; [apply rfc3339_ok_sound | apply rfc3339_ok_complete]. Qed.
@@ -231,3 +474,4 @@ Theorem malformed_created_no_manifest (marshal : manifest -> str) (H : str -> st
 Proof.
   intros G N P. eapply bad_created_no_manifest; eauto. now apply malformed_refused.
 Qed.
+
